@@ -316,6 +316,73 @@ def part_deadline():
   return n, len(outcomes), viols, samples
 
 
+def part_histories(tier):
+  """Sequences of incoming items on ONE adapter: after a faulty item the next complete valid frame is read back intact.
+
+  Items: V1/V2/V0 valid frames (payload 3 bytes / 5 bytes / none); BADSUM (checksum field corrupted, whole frame arrives);
+  TRUNC (header arrives, the payload read times out in the transport and the payload never comes); EMPTY (a read that
+  returns nothing, i.e. an empty header)."""
+  am, ue, timeouts = mods()
+  import libusb1  # pylint: disable=g-import-not-at-top
+  frames = {'V1': ('WRTE', 1, 2, 'abc'), 'V2': ('OKAY', 3, 4, 'hello'), 'V0': ('CLSE', 5, 6, '')}
+  items = ['V1', 'V2', 'V0', 'BADSUM', 'TRUNC', 'EMPTY']
+  TIMEOUT = object()
+
+  class T2(Transport):
+
+    def read(self, n, timeout_ms=None):
+      if self.reads and self.reads[0] is TIMEOUT:
+        self.reads.pop(0)
+        self.read_calls.append((n, timeout_ms))
+        raise ue.UsbReadFailedError(libusb1.USBError(libusb1.LIBUSB_ERROR_TIMEOUT))
+      return Transport.read(self, n, timeout_ms)
+
+  def chunks_of(item):
+    if item in frames:
+      cmd, a0, a1, data = frames[item]
+      b = s2b(data)
+      return [ref_header(cmd, a0, a1, b)] + ([data] if b else [])
+    if item == 'BADSUM':
+      h = bytearray(ref_header('WRTE', 7, 8, b'xyz'))
+      h[16] ^= 0x01
+      return [bytes(h), 'xyz']
+    if item == 'TRUNC':
+      return [ref_header('WRTE', 9, 9, b'lost'), TIMEOUT]
+    return ['']
+
+  viols, n, outcomes = [], 0, set()
+  depth = 3 if tier == 'quick' else 4
+  for d in range(2, depth + 1):
+    for hist in itertools.product(items, repeat=d):
+      if not any(x in frames for x in hist) or all(x in frames for x in hist):
+        continue
+      reads = [c for it in hist for c in chunks_of(it)]
+      t = T2(reads)
+      ad = am.AdbTransportAdapter(t)
+      got = []
+      for it in hist:
+        try:
+          m = ad.read_message(timeouts.PolledTimeout.from_millis(1000))
+          got.append(('msg', m.command, m.arg0, m.arg1, s2b(m.data)))
+        except Exception as e:  # pylint: disable=broad-except
+          got.append(('exc', type(e).__name__))
+      n += 1
+      outcomes.add(tuple(g[0] for g in got))
+      for it, g in zip(hist, got):
+        if it in frames:
+          cmd, a0, a1, data = frames[it]
+          if g != ('msg', cmd, a0, a1, s2b(data)):
+            viols.append(('histories:valid-frame-after-fault:%s' % '-'.join(hist),
+                          'incoming %r on one adapter: the complete valid frame %s was read back as %r (all results %r)'
+                          % (list(hist), it, g, got), {'part': 'histories', 'hist': list(hist)}))
+            break
+        elif g[0] != 'exc':
+          viols.append(('histories:fault-delivered:%s' % '-'.join(hist), 'faulty item %s was delivered as %r' % (it, g),
+                        {'part': 'histories', 'hist': list(hist)}))
+          break
+  return n, len(outcomes), viols, [{'history': ['V1', 'TRUNC', 'V2'], 'expected': 'msg, error, msg'}]
+
+
 def run(tier):
   rep = common.Report(PID, tier, 'model_checking')
   items = ['grid'] + list(range(256))
@@ -332,6 +399,9 @@ def run(tier):
   n, d, viols, samples = part_deadline()
   rep.merge_violations(viols)
   rep.add_part('deadline', evaluations=n, distinct_nontrivial=d, exhaustive=True, samples=samples)
+  n, d, viols, samples = part_histories(tier)
+  rep.merge_violations(viols)
+  rep.add_part('histories on one adapter', evaluations=n, distinct_nontrivial=d, exhaustive=True, samples=samples)
   try:
     from vf.harness import c13_sched  # pylint: disable=g-import-not-at-top
   except ImportError:
